@@ -131,3 +131,32 @@ Proof. unfold convert_model_full. rewrite map_map. apply map_ext. intros l. unfo
 Definition render_model_full (prefer : bool) (d : qdict) (bits : string) (m : list layer) : list string :=
   map (fun p => render_layer (fst p) ++ "|" ++ snd p)
       (combine (convert_model_full prefer d bits m) (total_bits_of prefer d bits m)).
+
+(* model_quantize asserts that an adaptive entry carries only the bit width ("quantized_relu(6)"): an entry with a comma is
+   rejected (AssertionError) -- the configurations the conversion is not defined on *)
+Fixpoint has_comma (s : string) : bool :=
+  match s with EmptyString => false | String c r => Ascii.eqb c ","%char || has_comma r end.
+Definition adaptive_rejects (prefer : bool) (d : qdict) (l : layer) : bool :=
+  if negb (String.eqb (l_cls l) "Activation") then false else
+  match select_entry prefer d (l_name l) with
+  | Some (e, true) =>
+    match assoc "" e with
+    | Some s => has_comma s
+    | None => match l_act l with
+              | Some a => match nonempty (assoc a e) with Some s => has_comma s | None => false end
+              | None => false
+              end
+    end
+  | _ => false
+  end.
+Definition model_rejected (prefer : bool) (d : qdict) (m : list layer) : bool := existsb (adaptive_rejects prefer d) m.
+(* without the preference and without a QAdaptiveActivation class entry nothing is ever rejected on these grounds ...
+   unless a layer-NAME entry is the only one found: get_config returns it for either class *)
+Theorem no_adaptive_no_rejection d m : assoc "QAdaptiveActivation" d = None ->
+  (forall l, In l m -> assoc (l_name l) d = None \/ find_entry d (l_name l) "QActivation" <> None) ->
+  model_rejected false d m = false.
+Proof. intros H Hn. unfold model_rejected. apply not_true_is_false. intros E. apply existsb_exists in E. destruct E as [l [Hin R]].
+  unfold adaptive_rejects, select_entry in R. destruct (negb (String.eqb (l_cls l) "Activation")); [discriminate|].
+  destruct (find_entry d (l_name l) "QActivation") as [e|] eqn:QA; [discriminate|].
+  destruct (Hn l Hin) as [N|N]; [|contradiction].
+  unfold find_entry in R. rewrite N, H in R. discriminate. Qed.
